@@ -179,6 +179,10 @@ def run(ctx):
     S.TEMPLATES, S.INLINE = S_T, S_I
     ctx.rule("C11.R7", "prefix minus is the IEEE negation of the operand (never `0 - x`), not / ! negate the operand's boolean", floor=3)
     unary_rule(ctx, "C11.R7", core)
+    # the ordering the comparison operators follow on lists (and fail with): element by element through compare itself
+    ctx.rule("C11.R8", "comparisons follow the value ordering on lists too: Value::compare walks both lists with compare on each pair, returns the first non-Equal answer (including 'not comparable') and breaks ties by length", floor=2)
+    from rules import c12 as c12_
+    c12_.list_compare_rule(ctx, "C11.R8", core)
     ctx.rule("C11.R4", "in the list-list copy the `len() != len()` test with error exit is the first thing that happens: no value is produced and no element is read before it", floor=1)
     blk = H.strip(C.arm_ll["body"])
     ok, why = False, "list-list arm is not a block"
